@@ -1184,6 +1184,18 @@ func (e *Enc) encodeInstr(in ssa.Instruction, st *State) {
 			x := e.term(in.X)
 			e.safety("index", in.X.Name(), fmt.Sprintf("(and (>= %s 0) (< %s (s.len %s)))", idx, idx, x), in.Pos())
 			e.places[in] = &Place{kind: 3, heap: s.ElemHeap(u.Elem()), ref: "(s.arr " + x + ")", idx: "(at (s.off " + x + ") " + idx + ")", T: u.Elem()}
+			// indexing a reslice b[lo:hi]: introduce the same cell as an index of b, so that
+			// quantified facts about b[...] find their trigger
+			if sl, ok := in.X.(*ssa.Slice); ok {
+				if _, isSlice := sl.X.Type().Underlying().(*types.Slice); isSlice {
+					lo := "0"
+					if sl.Low != nil {
+						lo = e.term(sl.Low)
+					}
+					bx := e.term(sl.X)
+					e.fact(fmt.Sprintf("(= (at (s.off %s) %s) (at (s.off %s) (+ %s %s)))", x, idx, bx, lo, idx))
+				}
+			}
 		case *types.Pointer:
 			a := u.Elem().Underlying().(*types.Array)
 			if _, isPlace := e.places[in.X]; isPlace {
